@@ -43,6 +43,7 @@ type op struct {
 	wg    *wgState
 	wake  time.Time
 	label string
+	rw    bool // the lock operation is on an RWMutex
 	// select
 	cases      []selCase
 	hasDefault bool
@@ -469,7 +470,18 @@ func (s *Sched) enabled(t *thread) bool {
 	case opLock:
 		return !o.mu.writer && o.mu.readers == 0
 	case opRLock:
-		return !o.mu.writer
+		if o.mu.writer {
+			return false
+		}
+		// writer preference, as in sync.RWMutex: a reader that arrives after a
+		// writer has called Lock waits for that writer (this is what makes a
+		// nested RLock deadlock when a writer slips in between)
+		for _, u := range s.threads {
+			if u != t && !u.done && u.pend != nil && u.pend.kind == opLock && u.pend.mu == o.mu && u.pend.rw && u.parkSeq < t.parkSeq {
+				return false
+			}
+		}
+		return true
 	case opWait:
 		return o.wg.n == 0
 	}
